@@ -8,6 +8,9 @@ from bip_utils.bech32.bech32_base import Bech32BaseUtils
 from bip_utils.utils.misc import Base32Decoder, Base32Encoder
 from bip_utils import SS58Decoder, SS58Encoder
 import hashlib
+from bip_utils.substrate.scale import (SubstrateScaleBytesEncoder, SubstrateScaleCUintEncoder, SubstrateScaleU8Encoder,
+                                       SubstrateScaleU16Encoder, SubstrateScaleU32Encoder, SubstrateScaleU64Encoder,
+                                       SubstrateScaleU128Encoder, SubstrateScaleU256Encoder)
 
 ALPHS = [Base58Alphabets.BITCOIN, Base58Alphabets.RIPPLE]
 
@@ -736,6 +739,126 @@ def gen_ss58(ctx):
         ctx.run("ss58_decode", ["".join(t)], "mutated")
 
 
+# ------------------------------------------------------------------ SCALE
+UENC = [SubstrateScaleU8Encoder, SubstrateScaleU16Encoder, SubstrateScaleU32Encoder, SubstrateScaleU64Encoder,
+        SubstrateScaleU128Encoder, SubstrateScaleU256Encoder]
+UBITS = [8, 16, 32, 64, 128, 256]
+
+
+def scale_compact_ref_decode(b):
+    """SCALE compact decoding from the specification: (value, rest) or None."""
+    if not b:
+        return None
+    mode = b[0] & 3
+    if mode == 0:
+        return b[0] >> 2, b[1:]
+    if mode in (1, 2):
+        k = 2 if mode == 1 else 4
+        return (int.from_bytes(b[:k], "little") >> 2, b[k:]) if len(b) >= k else None
+    k = (b[0] >> 2) + 4
+    return (int.from_bytes(b[1:1 + k], "little"), b[1 + k:]) if len(b) >= 1 + k else None
+
+
+def scale_compact_ref(v):
+    """SCALE compact encoding from the specification."""
+    if v < 2 ** 6:
+        return bytes([v << 2])
+    if v < 2 ** 14:
+        return ((v << 2) | 1).to_bytes(2, "little")
+    if v < 2 ** 30:
+        return ((v << 2) | 2).to_bytes(4, "little")
+    k = (v.bit_length() + 7) // 8
+    return bytes([((k - 4) << 2) | 3]) + v.to_bytes(k, "little")
+
+
+def d_scale_uint(a):
+    k, v = a
+    try:
+        b = UENC[k].Encode(v)
+    except ValueError:
+        return None if not (0 <= v < 2 ** UBITS[k]) else "U%d Encode(%d) raised ValueError" % (UBITS[k], v)
+    if not (0 <= v < 2 ** UBITS[k]):
+        return "U%d Encode(%d) accepted an out-of-range value" % (UBITS[k], v)
+    ok = len(b) == UBITS[k] // 8 and int.from_bytes(b, "little") == v
+    return None if ok else "U%d Encode(%d) = %s" % (UBITS[k], v, b.hex())
+
+
+def d_scale_compact(a):
+    v, = a
+    if not (0 <= v < 2 ** 536):
+        return None            # error classes are checked by the correspondence
+    b = SubstrateScaleCUintEncoder.Encode(v)
+    if b != scale_compact_ref(v):
+        return "compact Encode(%d) = %s, SCALE gives %s" % (v, b.hex(), scale_compact_ref(v).hex())
+    tail = b"\xaa\x55"
+    return None if scale_compact_ref_decode(b + tail) == (v, tail) else "compact encoding of %d does not decode back" % v
+
+
+def d_scale_bytes(a):
+    b, = a
+    e = SubstrateScaleBytesEncoder.Encode(b)
+    r = scale_compact_ref_decode(e + b"\x01")
+    ok = r is not None and r[0] == len(b) and r[1] == b + b"\x01"
+    return None if ok else "bytes Encode(%s) = %s" % (b.hex(), e.hex())
+
+
+FUNCS.update({
+    "scale_uint": Func(model=lambda m, a: m.call("scale_uint", a[0], Z(a[1])),
+                       impl=lambda a: UENC[a[0]].Encode(a[1]), direct=d_scale_uint),
+    "scale_compact": Func(model=lambda m, a: m.call("scale_compact", Z(a[0])),
+                          impl=lambda a: SubstrateScaleCUintEncoder.Encode(a[0]), direct=d_scale_compact),
+    "scale_bytes": Func(model=lambda m, a: m.call("scale_bytes", a[0]),
+                        impl=lambda a: SubstrateScaleBytesEncoder.Encode(a[0]), direct=d_scale_bytes),
+    # model decoder against the reference decoder (no library counterpart)
+    "scale_compact_decode": Func(model=lambda m, a: m.call("scale_compact_decode", a[0]),
+                                 impl=lambda a: _must(scale_compact_ref_decode(a[0]))),
+})
+
+
+def _must(r):
+    if r is None:
+        raise ValueError("truncated")
+    return [r[0], r[1]]
+
+
+def gen_scale(ctx):
+    rng = ctx.rng
+    edges = set()
+    for k in (0, 1, 2, 6, 7, 8, 14, 15, 16, 24, 30, 31, 32, 63, 64, 65, 127, 128, 129, 255, 256, 257, 528, 535, 536, 537):
+        for d in (-2, -1, 0, 1, 2):
+            edges.add(2 ** k + d)
+    edges |= {-1, -2, -64, -2 ** 64}
+    for v in sorted(edges):
+        ctx.run("scale_compact", [v], "threshold", trivial=(v == 0))
+        if 0 <= v < 2 ** 536:
+            ctx.run("scale_compact_decode", [scale_compact_ref(v) + b"\x07"], "threshold")
+        for k in range(6):
+            ctx.run("scale_uint", [k, v], "threshold", trivial=(v == 0))
+    for v in range(0, 70000 if not ctx.quick else 1300):
+        ctx.run("scale_compact", [v], "small", trivial=(v == 0))
+    for v in range(16000, 16800):
+        ctx.run("scale_compact", [v], "around-2^14")
+    for v in range(0, 300):
+        ctx.run("scale_uint", [0, v], "u8")
+    # compact decoder (model) on every first byte and truncations
+    for b0 in range(256):
+        for n in (0, 1, 2, 3, 4, 5, 66, 67, 68):
+            ctx.run("scale_compact_decode", [bytes([b0]) + bytes(range(1, n + 1))], "firstbyte")
+    two = range(65536) if not ctx.quick else list(range(0, 300)) + [rng.randrange(65536) for _ in range(300)]
+    for b in [b""] + [bytes([x]) for x in range(256)] + [x.to_bytes(2, "big") for x in two]:
+        ctx.run("scale_bytes", [b], "len0-2", trivial=(b == b""))
+    for n in (62, 63, 64, 65, 100, 255, 256, 1000, 16383, 16384, 16385, 70000):
+        ctx.run("scale_bytes", [bytes(n)], "lenthreshold")
+    ctx.note_exhaustive("SCALE: compact integers 0..1299 (0..69999 in thorough) and +-2 around every power of two that "
+                        "matters; bytes of length 0..1 (2 in thorough); model compact decoder on every first byte")
+    for _ in range(ctx.n(300, 5000)):
+        v = rng.getrandbits(rng.choice([3, 6, 7, 13, 14, 15, 29, 30, 31, 32, 64, 128, 256, 400, 535, 536, 537, 600]))
+        ctx.run("scale_compact", [v], "rand")
+        k = rng.randrange(6)
+        ctx.run("scale_uint", [k, rng.getrandbits(UBITS[k] + rng.choice([-1, 0, 0, 0, 1]) if UBITS[k] > 1 else 1)], "rand")
+        ctx.run("scale_bytes", [rand_bytes(rng, 300)], "rand")
+
+
 def rand_bytes(rng, maxlen=200):
     k = rng.choice([0, 0, 1, 2, 3])
     n = rng.choice([0, 1, 2, 3, 4, 5, 8, 16, 20, 21, 25, 32, 33, 37, 64, 65, 78, 82, rng.randrange(maxlen)])
@@ -749,6 +872,7 @@ def generate(ctx):
     gen_convertbits(ctx)
     gen_base32(ctx)
     gen_ss58(ctx)
+    gen_scale(ctx)
 
 
 def gen_b58(ctx):
